@@ -38,14 +38,14 @@ DATA_MOVE = {"transpose", "conj", "conj_blocks", "flip_signature", "consume_tran
 
 def plan(tier):
     if tier == "thorough":
-        return {"cases": 9000, "shards": 16, "budget_s": 1500}
-    return {"cases": 420, "shards": 8, "budget_s": 300}
+        return {"cases": 12000, "shards": 16, "budget_s": 1500}
+    return {"cases": 560, "shards": 8, "budget_s": 300}
 
 
 def floors(tier):
     k = 15 if tier == "thorough" else 1
-    return {"programs": 150 * k, "config_runs": 900 * k, "hard_vs_meta_pairs": 150 * k, "lazy_perturbations": 400 * k,
-            "unroll_variants": 300 * k, "paths_tried": 200 * k, "steps_compared": 8000 * k}
+    return {"programs": 120 * k, "config_runs": 900 * k, "hard_vs_meta_pairs": 120 * k, "lazy_perturbations": 300 * k,
+            "unroll_variants": 250 * k, "paths_tried": 150 * k, "steps_compared": 6000 * k, "family_adds": 1500 * k}
 
 
 # ------------------------------------------------------------------ (A) programs under configurations
@@ -332,9 +332,100 @@ def unroll_case(ctx, idx):
              {"kind": "unroll-network", "sym": sym, "igs": igs, "out": out_labels, "tensors": [h.desc() for h in hts]} if idx < 20 and idx % 10 == 3 else None)
 
 
+# ------------------------------------------------------------------ (C) families of tensors fused alike, stored sectors differing
+
+def fused_family_case(ctx, idx):
+    """3-4 tensors over the same legs and charge but with different stored sectors, fused by one recipe with the
+    configuration's default mode (and lazily transposed alike); n-ary add in every operand order, tensordot and vdot
+    over the fused legs.  Every configuration must reproduce the dense truth (known from the harness) after unfusing."""
+    import yastn
+    rng, nprng = ctx.rng(idx), ctx.nprng(idx)
+    sym = rng.choice(G.ALL_SYMS)
+    rank = rng.randint(3, 4)
+    legs = [D.gen_leg(rng, sym, dmax=2, nsec=(2, 3)) for _ in range(rank)]
+    n = D.gen_n(rng, sym, legs, "fit")
+    dt = rng.choice(("float64", "complex128"))
+    k = rng.randint(3, 4)
+    hs = [D.gen_tensor(rng, nprng, sym, legs=legs, n=n, dtype=dt, density=rng.choice((1.0, 0.7, 0.45))) for _ in range(k)]
+    if len({tuple(sorted(h.blocks)) for h in hs}) < 2:
+        hs[0] = hs[0].with_present(sorted(hs[0].blocks)[::2])
+    perm = list(range(rank)); rng.shuffle(perm)
+    cut = rng.randint(1, rank - 1)
+    g1, g2 = tuple(perm[:cut]), tuple(perm[cut:])
+    groups = (g1 if len(g1) > 1 else g1[0], g2 if len(g2) > 1 else g2[0])
+    lazy = rng.random() < 0.5
+    amps = [rng.choice((1, -1.5, 0.5, 2, None)) for _ in range(k)]
+    orders = list(itertools.permutations(range(k)))
+    rng.shuffle(orders)
+    orders = orders[:6]
+    flat = list(g1) + list(g2)
+    dense = [np.transpose(h.dense(), flat) for h in hs]
+    ulegs = [legs[i] for i in flat]
+    scale = sum(float(np.linalg.norm(x.ravel())) for x in dense) + 1e-300
+    compared = 0
+    for pol in POLICIES:
+        for fus in ("hard", "meta"):
+            cfg = D.make_cfg(sym, False, tensordot_policy=pol, default_fusion=fus)
+            label = f"{pol}/{fus}"
+            fs = []
+            for h in hs:
+                f = h.to_yastn(cfg).fuse_legs(axes=groups, mode=None)
+                if lazy:
+                    f = f.transpose((1, 0))
+                fs.append(f)
+            ctx.count("config_runs")
+            for order in orders:
+                try:
+                    r = yastn.add(*[fs[i] for i in order], amplitudes=[amps[i] for i in order])
+                    if lazy:
+                        r = r.transpose((1, 0))
+                    u = GP.unfuse_all(r)
+                    e = sum((1 if amps[i] is None else amps[i]) * dense[i] for i in order)
+                    bad = None
+                    if u.ndim != rank or tuple(u.n) != tuple(n):
+                        bad = f"rank {u.ndim} / charge {u.n}"
+                    else:
+                        for j, (yl, hl) in enumerate(zip(u.get_legs(), ulegs)):
+                            m = D.sub_leg_ok(yl, hl)
+                            if m:
+                                bad = f"leg {j}: {m}"
+                                break
+                    if bad is None:
+                        got = D.obs_dense(u, ulegs)
+                        err = float(np.max(np.abs(got - e))) if e.size else 0.0
+                        if not ctx.margin("family-add", err, 1e-12 * scale * 8):
+                            bad = f"values differ from the dense sum by {err:.2e}"
+                except Exception as ex:
+                    bad = f"raised {type(ex).__name__}: {ex}"
+                ctx.count("family_adds")
+                compared += 1
+                if bad:
+                    ctx.violation("family:add-n-ary", f"add of {k} alike-fused tensors in operand order {order} under {label} (lazy={lazy}): {bad}",
+                                  {"sym": sym, "groups": groups, "order": order, "config": label, "lazy": lazy, "tensors": [h.desc() for h in hs]})
+                    break
+            # pairwise contraction and overlap over the fused legs
+            try:
+                a, b = fs[0], fs[1]
+                v = yastn.vdot(a, b)
+                ev = np.sum(np.conj(dense[0]) * dense[1])
+                if not ctx.margin("family-vdot", abs(complex(v) - complex(ev)), 1e-12 * scale * scale * 8):
+                    ctx.violation("family:vdot", f"vdot over fused legs {v} vs dense {ev} under {label} (lazy={lazy})")
+                r = yastn.tensordot(a, b, axes=((0, 1), (0, 1)), conj=(1, 0))
+                if not ctx.margin("family-dot", abs(complex(r.to_number()) - complex(ev)), 1e-12 * scale * scale * 8):
+                    ctx.violation("family:tensordot", f"full contraction over fused legs {r.to_number()} vs dense {ev} under {label}")
+                ctx.count("family_contractions", 2)
+            except Exception as ex:
+                ctx.violation("family:contraction-raised", f"vdot/tensordot over alike-fused legs raised {type(ex).__name__}: {ex} under {label} (lazy={lazy})",
+                              {"sym": sym, "groups": groups, "config": label, "lazy": lazy, "tensors": [h.desc() for h in hs]})
+    ctx.case(("family", sym, tuple(h.sig() for h in hs), groups, lazy), compared > 0,
+             {"kind": "fused-family", "sym": sym, "groups": groups, "lazy": lazy, "tensors": [h.desc() for h in hs]} if idx < 30 and idx % 12 == 7 else None)
+
+
 def run_case(ctx, idx):
-    if idx % 3 == 2:
+    if idx % 4 == 2:
         unroll_case(ctx, idx)
+    elif idx % 4 == 3:
+        fused_family_case(ctx, idx)
     else:
         program_case(ctx, idx)
 
